@@ -3,3 +3,5 @@
 from . import c_blocks  # noqa: F401
 from . import c_args  # noqa: F401
 from . import c_flags  # noqa: F401
+from . import c_normalize  # noqa: F401
+from . import c_constants  # noqa: F401
